@@ -479,6 +479,9 @@ func (m *Machine) callSSA(caller *frame, callpos token.Pos, fn *ssa.Function, ar
 		if h, ok := intrinsics[fn.Name()]; ok && m.isHarnessPkg(fn) {
 			return h(m, caller, fn, args)
 		}
+		if h, ok := intrinsicsVFS[fn.Name()]; ok && m.isHarnessPkg(fn) {
+			return h(m, caller, fn, args)
+		}
 		if m.isForeign(fn) {
 			return m.callForeign(caller, callpos, fn, args)
 		}
